@@ -7,7 +7,8 @@
 //!   tighten <baseline> <keys>               -> baseline read back from the file tighten_baseline saved
 //!   update  <results> <mode> <baseline|N>   -> baseline read back from the file the update saved
 //! Lists use ';' ('_' = empty, 'N' = no baseline), records ':', strings are comma-separated scalar
-//! values ('-' = empty). result = path:kind:status:code:limit:hash (hash is ignored here: the
+//! values ('-' = empty; in a result path the units U+DC80..U+DCFF are raw bytes, see dec_path).
+//! result = path:kind:status:code:limit:hash (hash is ignored here: the
 //! implementation hashes the file at `path` itself). The state file lives in the directory given
 //! as first argument; the current directory holds the files whose hashes the generator knows.
 use sgv::{dec, enc, quiet_panics};
@@ -28,6 +29,26 @@ fn dlist(s: &str) -> Vec<&str> {
     } else {
         s.split(';').collect()
     }
+}
+
+/// A result path: units U+DC80..U+DCFF stand for the raw bytes 0x80..0xFF (Python's
+/// surrogateescape), so a path that is not valid UTF-8 can be sent; every other unit is a
+/// scalar value and contributes its UTF-8 encoding.
+fn dec_path(s: &str) -> PathBuf {
+    use std::os::unix::ffi::OsStringExt;
+    let mut bytes: Vec<u8> = Vec::new();
+    if !(s.is_empty() || s == "-") {
+        for t in s.split(',') {
+            let u: u32 = t.parse().expect("unit");
+            if (0xDC80..=0xDCFF).contains(&u) {
+                bytes.push((u - 0xDC00) as u8);
+            } else {
+                let c = char::from_u32(u).expect("scalar");
+                bytes.extend_from_slice(c.encode_utf8(&mut [0u8; 4]).as_bytes());
+            }
+        }
+    }
+    PathBuf::from(std::ffi::OsString::from_vec(bytes))
 }
 
 fn placement(tag: u32) -> ViolationType {
@@ -56,7 +77,7 @@ fn placement(tag: u32) -> ViolationType {
 fn parse_result(s: &str) -> CheckResult {
     let f: Vec<&str> = s.split(':').collect();
     assert!(f.len() == 6, "bad result");
-    let path = PathBuf::from(dec(f[0]));
+    let path = dec_path(f[0]);
     let (cat, reason): (Option<ViolationCategory>, Option<String>) = match f[1] {
         "c" => (Some(ViolationCategory::Content), None),
         "n" => (None, None),
